@@ -5,6 +5,7 @@
    it appears below as the explicit premise [merged = merged_spec]. *)
 From Coq Require Import NArith List.
 From LV Require Import model.VecIndex spec.FcSpec model.Abft model.AbftRun spec.AbftSpec
+  proofs.VecInv proofs.VecStep proofs.AbftSeal proofs.AbftRoots proofs.AbftInv proofs.AbftInvStep proofs.AbftGraph
   proofs.AbftCheaters proofs.AbftForkWitness.
 Import ListNotations.
 Local Open Scope N_scope.
@@ -35,6 +36,25 @@ Theorem C03_listed_iff_forker : forall st atr E id,
    exists i, nth_error (v_ids (l_vals st)) i = Some id /\ sees_fork E (anc E atr) i = true).
 Proof. exact cheater_iff_visible_forker. Qed.
 
+(* ================= Round 2: the premise discharged with worker vecidx' C06 =================
+   for every state whose index satisfies vecidx' invariant (every reachable one: C04_J_on_every_run) and
+   every indexed Atropos, the list IS the list of visible forkers of the index' DAG, in canonical order *)
+Theorem C03_cheaters_are_visible_forkers_graph : forall st atr ea,
+  vinv (length (l_vals st)) (l_idx st) -> evt (l_idx st) atr ea ->
+  cheaters_of st atr = visible_forkers (l_vals st) (evs (l_idx st)) atr.
+Proof. exact cheaters_graph. Qed.
+
+(* every block of every accepting Process call (E' = the DAG of the epoch's accepted events incl. the one being
+   processed): cheaters = validators with two different events of equal seq among the ancestors-or-self of
+   the block's Atropos, in canonical order; the Atropos is an accepted event *)
+Theorem C03_block_cheaters_graph : forall cap eb i e u bl st',
+  J i -> elinv (i_st i) -> V (i_st i) -> guard i e true = None ->
+  wf_new (length (l_vals (i_st i))) (l_idx (i_st i)) (vev (l_vals (i_st i)) e) ->
+  process cap eb (aput (a_id e) e (i_es i)) (i_st i) e = (Ok u, bl, st') ->
+  forall b, In b bl -> b_atropos b <> 0 ->
+    b_cheaters b = visible_forkers (l_vals (i_st i)) ((a_id e, vev (l_vals (i_st i)) e) :: evs (l_idx (i_st i))) (b_atropos b).
+Proof. intros cap eb i e u bl st' HJ HI HV G W E b Hb Hz. exact (proj2 (accepted_blocks_graph cap eb i e u bl st' HJ HI HV G W E b Hb Hz)). Qed.
+
 (* non-vacuity: a run with a forking validator; the second block lists it, and the executable
    specification (graph closure, spec/AbftSpec.v c03_trace) holds on the trace *)
 Example C03_fork_run :
@@ -46,3 +66,5 @@ Print Assumptions C03_block_cheaters.
 Print Assumptions C03_cheaters_by_fork_marker.
 Print Assumptions C03_cheaters_are_visible_forkers.
 Print Assumptions C03_listed_iff_forker.
+Print Assumptions C03_cheaters_are_visible_forkers_graph.
+Print Assumptions C03_block_cheaters_graph.
